@@ -118,6 +118,7 @@ impl Error {
     /// in which things in a datetime library can fail. (Especially parsing
     /// errors.)
     #[cfg(feature = "alloc")]
+    #[cfg_attr(jiff_verif, inline(never))]
     pub(crate) fn adhoc<'a>(message: impl core::fmt::Display + 'a) -> Error {
         Error::from(ErrorKind::Adhoc(AdhocError::from_display(message)))
     }
@@ -128,6 +129,7 @@ impl Error {
     /// `core::fmt::Arguments` down. This lets us extract a `&'static str`
     /// from some messages in core-only mode and provide somewhat decent error
     /// messages in some cases.
+    #[cfg_attr(jiff_verif, inline(never))]
     pub(crate) fn adhoc_from_args<'a>(
         message: core::fmt::Arguments<'a>,
     ) -> Error {
@@ -139,6 +141,7 @@ impl Error {
     ///
     /// This is useful in contexts where you know you have a `&'static str`,
     /// and avoids relying on `alloc`-only routines like `Error::adhoc`.
+    #[cfg_attr(jiff_verif, inline(never))]
     pub(crate) fn adhoc_from_static_str(message: &'static str) -> Error {
         Error::from(ErrorKind::Adhoc(AdhocError::from_static_str(message)))
     }
@@ -147,6 +150,7 @@ impl Error {
     /// specified `min..=max` range. The given `what` label is used in the
     /// error message as a human readable description of what exactly is out
     /// of range. (e.g., "seconds")
+    #[cfg_attr(jiff_verif, inline(never))]
     pub(crate) fn range(
         what: &'static str,
         given: impl Into<i128>,
@@ -157,6 +161,7 @@ impl Error {
     }
 
     /// Creates a new error from the special "shared" error type.
+    #[cfg_attr(jiff_verif, inline(never))]
     pub(crate) fn shared(err: SharedError) -> Error {
         Error::from(ErrorKind::Shared(err))
     }
@@ -562,6 +567,7 @@ pub(crate) trait ErrorContext {
 
 impl ErrorContext for Error {
     #[cfg_attr(feature = "perf-inline", inline(always))]
+    #[cfg_attr(jiff_verif, inline(never))]
     fn context(self, consequent: impl IntoError) -> Error {
         #[cfg(feature = "alloc")]
         {
@@ -587,6 +593,7 @@ impl ErrorContext for Error {
     }
 
     #[cfg_attr(feature = "perf-inline", inline(always))]
+    #[cfg_attr(jiff_verif, inline(never))]
     fn with_context<E: IntoError>(
         self,
         consequent: impl FnOnce() -> E,
